@@ -61,10 +61,19 @@ fn body(run: &Run, replay: Option<&Value>) {
     if let Some(case) = replay {
         if case["driver"].is_string() {
             // a stage-2 (c02) case
+            // vcore::Run::violation writes replays/C20/<n>.json even in replay mode; divert that so the
+            // files recorded by the last sweep are not overwritten (c01's engine does the same)
+            let scratch = std::env::temp_dir().join(format!("verif-c20-replay-{}", std::process::id()));
+            let _ = std::fs::create_dir_all(&scratch);
+            std::env::set_var("VERIF_ROOT", &scratch);
             let c = c02::strip_replay_fields(case);
             let opts = SupOpts { workers: 1, watchdog_ms: 10_000, chunk: 1 };
             let mut st = Stage2::default();
             run_cases(run, "replay", 0, 1, &|_| c.clone(), &opts, &mut st);
+            let _ = std::fs::remove_dir_all(&scratch);
+            if st.arith == 0 {
+                println!("replay: case returned without an arithmetic/debug-assert panic ({} other panics, {} worker failures ignored)", st.ignored_panics, st.ignored_failures);
+            }
         } else {
             engine_body(run, replay, &cfg());
         }
@@ -72,7 +81,7 @@ fn body(run: &Run, replay: Option<&Value>) {
     }
     // ---- stage 1: the C01 engine. Its deadline is shortened so that stage 2 fits in the tier budget
     if std::env::var("C01_DEADLINE").is_err() {
-        std::env::set_var("C01_DEADLINE", if quick { "24" } else { "900" });
+        std::env::set_var("C01_DEADLINE", if quick { "28" } else { "900" });
     }
     run.bound("stage1_deadline_s", json!(std::env::var("C01_DEADLINE").unwrap_or_default()));
     engine_body(run, None, &cfg());
@@ -80,6 +89,16 @@ fn body(run: &Run, replay: Option<&Value>) {
     // ---- stage 2: the C02 drivers in the strict profile
     run.assume("stage 2 trusts c02's supervisor (worker-side CPU-time watchdog, SIGABRT marker) to attribute results to cases; timeouts, aborts and non-arithmetic panics seen there are counted, not judged (C02 judges them in release)");
     stage2(run, quick);
+}
+
+/// Panic site without line numbers. Overflow checks inherited by std helpers (`i32::abs`, …) report a
+/// location inside the toolchain's `library/`: keep only the toolchain-independent tail, the `fn=` part of
+/// the identity then names the repository function.
+fn site(p: &vcore::PanicInfo) -> String {
+    match p.file.find("/library/") {
+        Some(i) if p.file.starts_with("/rustc/") => format!("std:{}", &p.file[i + 9..]),
+        _ => site_of(p),
+    }
 }
 
 #[derive(Default)]
@@ -123,7 +142,7 @@ fn run_cases(run: &Run, label: &str, lo: u64, hi: u64, get: &(dyn Fn(u64) -> Val
                                 Some((f, w)) => (f.to_string(), w.to_string()),
                                 None => (String::new(), v.what.clone()),
                             };
-                            let id = format!("overflow {} fn={}: {}", site_of(&p), f, p.kind());
+                            let id = format!("overflow {} fn={}: {}", site(&p), f, p.kind());
                             let narrowed = c02::narrow(&case, v.sub);
                             drop(g);
                             run.violation(
@@ -158,7 +177,7 @@ fn stage2(run: &Run, quick: bool) {
     // reduced bounds for the strict profile (2-3x slower than release); all reported in the evidence
     if quick {
         if std::env::var("C02_DEV_BYTES").is_err() {
-            std::env::set_var("C02_DEV_BYTES", "24");
+            std::env::set_var("C02_DEV_BYTES", "32");
         }
     }
     let mut phases: Vec<Phase> = match c02::phases(quick) {
